@@ -2047,3 +2047,5 @@ for _p in ("C13", "C17", "C06"):
 # values, which is what C07's predicate does; evaluate it here as well, on the AV1 syntax family
 PROPS["C19"]["checks"] = PROPS["C19"]["checks"] + ["C07"]
 PROPS["C19"]["fams"] = PROPS["C19"]["fams"] + [("fam_av1_syntax", 80, 2500)]
+for _p in ("C09", "C03", "C06"):
+    PROPS[_p]["fams"] = PROPS[_p]["fams"] + [("fam_encode_paths", 80, 2500)]
